@@ -410,9 +410,20 @@ class C12Monitor(Monitor):
                 R.observe('c12_unstable_boundaries_excluded', int(model.RdrivingForceIndex[p]) + 1)
             bad_big = big & ~(g > 0)
             bad_small = small & ~(g < 0)
+            extra = {}
+            if len(model.elements) == 1 and np.any(bad_small) and not np.any(bad_big):
+                # structural fact for the classifier: is the denominator of the binary growth law,
+                # (Vm_alpha / Vm_beta) x_beta - x_alpha(R), non-positive at every offending boundary?
+                try:
+                    xa = np.asarray(model.PSDXalpha[p], dtype=float)[:, 0]
+                    xb = np.asarray(model.PSDXbeta[p], dtype=float)[:, 0]
+                    den = model.matrixParameters.volume.Vm * xb / pp.volume.Vm - xa
+                    extra['growth_law_denominator'] = 'nonpositive' if bool(np.all(den[bad_small] <= 0)) else 'positive'
+                except Exception:
+                    extra['growth_law_denominator'] = 'unknown'
             R.check('c12.growth_sign', not (np.any(bad_big) or np.any(bad_small)),
                     _mech(run, model, p, shape=type(pp.shapeFactor.description).__name__,
-                          side='above' if np.any(bad_big) else 'below'),
+                          side='above' if np.any(bad_big) else 'below', **extra),
                     step=c['step'], Rcrit=rc, dG=dg, bad_radii=b[bad_big | bad_small][:5], growth=g[bad_big | bad_small][:5])
             R.observe('c12_states')
             if np.any(big) and np.any(small):
